@@ -51,6 +51,7 @@ func groups(tier string) []group {
 	}
 	gs = append(gs, group{"malformed/tokens", enumMalformedTokens})
 	gs = append(gs, group{"malformed/kinds", enumKinds})
+	gs = append(gs, group{"after-failure", enumAfterFailure})
 	gs = append(gs, group{"cache/keys", enumCacheKeys})
 	gs = append(gs, group{"cache/keys-seeded", enumCacheKeysSeeded})
 	gs = append(gs, group{"cache/reqs", enumCacheReqs})
@@ -1025,6 +1026,59 @@ func enumIncludes(tier string, yield func(*scen) bool) {
 					if !yield(s) {
 						return
 					}
+				}
+			}
+		}
+	}
+}
+
+
+// enumAfterFailure: a conforming document converted right after a failing one by the same converter (the
+// converter's state machine, caches and buffers are pooled): every truncation of two seed documents, every
+// malformed single-token deletion, a kind mismatch and a disallowed unknown member, each followed by two
+// conforming documents; the verdict and the bytes must be those of the document alone.
+func enumAfterFailure(tier string, yield func(*scen) bool) {
+	p, root := malProg()
+	seeds := []*jt.J{
+		jt.JObj().Add("a", jt.JNum("1")).Add("l", jt.JArr(jt.JNum("1"), jt.JNum("2"))).Add("m", jt.JObj().Add("k", jt.JStr([]byte("v")))).Add("s", jt.JObj().Add("b", jt.JBool(true))).Add("t", jt.JStr([]byte("x"))).Add("d", jt.JNum("-1.5e2")),
+		jt.JObj().Add("zz", jt.JObj().Add("q", jt.JArr(jt.JNum("1"), jt.JObj().Add("r", jt.JNull())))).Add("a", jt.JNull()).Add("l", jt.JArr()).Add("m", jt.JObj()),
+	}
+	var primes [][]byte
+	for _, seed := range seeds {
+		full := jt.Render(seed, jt.Spell{})
+		for n := 1; n < len(full); n++ {
+			if d := full[:n]; !json.Valid(d) && jt.FirstValueEnd(d) < 0 {
+				primes = append(primes, d)
+			}
+		}
+		toks := jt.Tokens(seed)
+		for i := range toks {
+			var mt []string
+			mt = append(append(mt, toks[:i]...), toks[i+1:]...)
+			if d := []byte(strings.Join(mt, " ")); !json.Valid(d) && jt.FirstValueEnd(d) < 0 {
+				primes = append(primes, d)
+			}
+		}
+	}
+	primes = append(primes, []byte(`{"a":"x"}`), []byte(`{"s":1}`), []byte(`{"s":{"b":1}}`), []byte(`{"l":[1,"x"]}`), []byte(`{"m":{"k":1}}`), []byte(`{"l":{}}`), []byte(`{"a":1,"s":[]}`))
+	type follow struct {
+		doc, want []byte
+	}
+	var fs []follow
+	for n := 1; n <= 2; n++ {
+		g := &tbin.Gen{}
+		v := g.Build(root, n)
+		if j, ok := p.Doc(v, root, jt.DocOpt{}); ok {
+			fs = append(fs, follow{jt.Render(j, jt.Spell{}), tbin.Bytes(v)})
+		}
+	}
+	for _, pr := range primes {
+		for fi, f := range fs {
+			for _, dis := range []bool{false, true} {
+				sc := &scen{op: "after-failure", trigger: fmt.Sprintf("follow%d", fi), prog: p, copts: conv.Options{DisallowUnknownField: dis}, optName: fmt.Sprint("disallow=", dis),
+					doc: f.doc, want: f.want, prime: pr, ks: []int{0, 3}}
+				if !yield(sc) {
+					return
 				}
 			}
 		}
